@@ -3,107 +3,194 @@
    (+ the generated body prologue/epilogue), py_op = CPython 3.12 genobject.c / SEND /
    CLEANUP_THROW.  The body is ANY function step over ANY type L of suspension points;
    sub-iterators are arbitrary objects (coinductive records of method behaviours).
-   fx_all = the tree with the four repairs, fx_none = the tree as it is. *)
+   fx_all = the tree with the repairs, fx_none = the tree as it is.  agen = true: the object is an
+   async generator (StopAsyncIteration for a finished object, PEP 479 for StopAsyncIteration, the
+   never-awaited warning); ThrowNC = throw with close_on_genexit = 0 as used by the async layer.
+   The async generator layer (AsyncGen.c: awaitables, ag_closed, ag_running_async, hooks) follows
+   at the end (M_AsyncGen / P_AsyncGen). *)
 From Coq Require Import ZArith List Bool.
-From CyVerif Require Import Lib.CInt Model.M_Gen Proof.P_Gen.
+From CyVerif Require Import Lib.CInt Model.M_Gen Proof.P_Gen Model.M_AsyncGen Proof.P_AsyncGen Proof.P_AsyncGenRun.
 Import ListNotations.
 Open Scope Z_scope.
 
 (* every body, every well-formed state between operations, every history: same
    per-operation results, same resumptions of user code, corresponding final state *)
-Theorem C23_gen_bisim : forall (L : Type) (start : L) (step : L -> input -> outcome L) (coro : bool)
+Theorem C23_gen_bisim : forall (L : Type) (start : L) (step : L -> input -> outcome L) (coro agen : bool)
     (h : list op) (s : cstate L), cwf L s ->
-  run_py L start step coro (abs L s) h =
-  (fst (run_cy L start step coro fx_all s h), option_map (abs L) (snd (run_cy L start step coro fx_all s h))).
+  run_py L start step coro agen (abs L s) h =
+  (fst (run_cy L start step coro agen fx_all s h), option_map (abs L) (snd (run_cy L start step coro agen fx_all s h))).
 Proof. exact gen_bisim. Qed.
 Print Assumptions C23_gen_bisim.
 
 Theorem C23_gen_bisim_from_creation : forall (L : Type) (start : L) (step : L -> input -> outcome L)
-    (coro : bool) (h : list op),
-  run_py L start step coro (p_init L) h =
-  (fst (run_cy L start step coro fx_all (c_init L) h),
-   option_map (abs L) (snd (run_cy L start step coro fx_all (c_init L) h))).
+    (coro agen : bool) (h : list op),
+  run_py L start step coro agen (p_init L) h =
+  (fst (run_cy L start step coro agen fx_all (c_init L) h),
+   option_map (abs L) (snd (run_cy L start step coro agen fx_all (c_init L) h))).
 Proof. exact gen_bisim_init. Qed.
 Print Assumptions C23_gen_bisim_from_creation.
 
 (* the tree as it is: the full statement (forall h, run_py = run_cy fx_none) is FALSE (four
    refutations below); proved on histories along which none of the four situations
-   hit_first_send / hit_throw_si_fresh / hit_close_ret / hit_si_at_yf arises *)
+   hit_first_send / hit_throw_si_fresh / hit_close_ret / hit_si_at_yf / hit_ag_fresh_del arises *)
 Theorem C23_gen_bisim_current_partial : forall (L : Type) (start : L) (step : L -> input -> outcome L)
-    (coro : bool) (h : list op) (s : cstate L), cwf L s -> avoids L start step coro s h = true ->
-  run_py L start step coro (abs L s) h =
-  (fst (run_cy L start step coro fx_none s h), option_map (abs L) (snd (run_cy L start step coro fx_none s h))).
+    (coro agen : bool) (h : list op) (s : cstate L), cwf L s -> avoids L start step coro agen s h = true ->
+  run_py L start step coro agen (abs L s) h =
+  (fst (run_cy L start step coro agen fx_none s h), option_map (abs L) (snd (run_cy L start step coro agen fx_none s h))).
 Proof. exact gen_bisim_current_partial. Qed.
 Print Assumptions C23_gen_bisim_current_partial.
 
 Theorem C23_first_send_refuted :
-  results (run_cy Z 0 w_step false fx_none (c_init Z) [Send (VInt 7); Next])
-  <> results (run_py Z 0 w_step false (p_init Z) [Send (VInt 7); Next]).
+  results (run_cy Z 0 w_step false false fx_none (c_init Z) [Send (VInt 7); Next])
+  <> results (run_py Z 0 w_step false false (p_init Z) [Send (VInt 7); Next]).
 Proof. exact first_send_refuted. Qed.
 Print Assumptions C23_first_send_refuted.
 
 Theorem C23_throw_stopiteration_fresh_refuted :
-  results (run_cy Z 0 w_step false fx_none (c_init Z) [Throw (EStopIter (VInt 5))])
-  <> results (run_py Z 0 w_step false (p_init Z) [Throw (EStopIter (VInt 5))]).
+  results (run_cy Z 0 w_step false false fx_none (c_init Z) [Throw (EStopIter (VInt 5))])
+  <> results (run_py Z 0 w_step false false (p_init Z) [Throw (EStopIter (VInt 5))]).
 Proof. exact throw_si_fresh_refuted. Qed.
 Print Assumptions C23_throw_stopiteration_fresh_refuted.
 
 Theorem C23_close_return_value_refuted :
-  results (run_cy Z 0 w_step false fx_none (c_init Z) [Next; Close])
-  <> results (run_py Z 0 w_step false (p_init Z) [Next; Close]).
+  results (run_cy Z 0 w_step false false fx_none (c_init Z) [Next; Close])
+  <> results (run_py Z 0 w_step false false (p_init Z) [Next; Close]).
 Proof. exact close_ret_refuted. Qed.
 Print Assumptions C23_close_return_value_refuted.
 
 Theorem C23_stopiteration_at_yield_from_refuted :
-  results (run_cy Z 0 w_step_yf false fx_none (c_init Z) [Next; Throw (EStopIter (VInt 5))])
-  <> results (run_py Z 0 w_step_yf false (p_init Z) [Next; Throw (EStopIter (VInt 5))]).
+  results (run_cy Z 0 w_step_yf false false fx_none (c_init Z) [Next; Throw (EStopIter (VInt 5))])
+  <> results (run_py Z 0 w_step_yf false false (p_init Z) [Next; Throw (EStopIter (VInt 5))]).
 Proof. exact si_at_yf_refuted. Qed.
 Print Assumptions C23_stopiteration_at_yield_from_refuted.
 
 (* resuming a running object: ValueError, nothing changes, in both machines and every variant *)
-Theorem C23_running_rejects : forall (L : Type) (start : L) (step : L -> input -> outcome L) (coro : bool)
+Theorem C23_running_rejects : forall (L : Type) (start : L) (step : L -> input -> outcome L) (coro agen : bool)
     (fx : fixes) (s : cstate L) (o : op), c_running s = true -> o <> Del ->
-  cy_op L start step coro fx s o = (RRaise (EValue 0), s, [])
-  /\ py_op L start step coro PExecuting o = (RRaise (EValue 0), PExecuting, []).
+  cy_op L start step coro agen fx s o = (RRaise (EValue 0), s, [])
+  /\ py_op L start step coro agen PExecuting o = (RRaise (EValue 0), PExecuting, []).
 Proof. exact running_rejects. Qed.
 Print Assumptions C23_running_rejects.
 
 (* a close() that succeeded is idempotent (both variants of the code) *)
-Theorem C23_close_idempotent : forall (L : Type) (start : L) (step : L -> input -> outcome L) (coro : bool)
+Theorem C23_close_idempotent : forall (L : Type) (start : L) (step : L -> input -> outcome L) (coro agen : bool)
     (fx : fixes) (s : cstate L), cwf L s ->
-  fst (fst (cy_op L start step coro fx s Close)) = RNone ->
-  cy_op L start step coro fx (snd (fst (cy_op L start step coro fx s Close))) Close
-  = (RNone, snd (fst (cy_op L start step coro fx s Close)), []).
+  fst (fst (cy_op L start step coro agen fx s Close)) = RNone ->
+  cy_op L start step coro agen fx (snd (fst (cy_op L start step coro agen fx s Close))) Close
+  = (RNone, snd (fst (cy_op L start step coro agen fx s Close)), []).
 Proof. exact close_idempotent. Qed.
 Print Assumptions C23_close_idempotent.
 
 (* abandonment: a suspended body is resumed exactly once (with GeneratorExit unless it
    delegates); a fresh or finished one is not run ... *)
 Theorem C23_cleanup_exactly_once : forall (L : Type) (start : L) (step : L -> input -> outcome L)
-    (coro : bool) (fx : fixes) (s : cstate L), cwf L s ->
+    (coro agen : bool) (fx : fixes) (s : cstate L), cwf L s ->
   match c_label s with
-  | RAt k => exists i, snd (cy_op L start step coro fx s Del) = [(k, i)]
+  | RAt k => exists i, snd (cy_op L start step coro agen fx s Del) = [(k, i)]
                        /\ (c_yf s = None -> i = IThrow EGenExit)
-  | _ => snd (cy_op L start step coro fx s Del) = []
+  | _ => snd (cy_op L start step coro agen fx s Del) = []
   end.
 Proof. exact cleanup_exactly_once. Qed.
 Print Assumptions C23_cleanup_exactly_once.
 
 (* ... and a finished object is never resumed again, by any operation *)
 Theorem C23_finished_never_resumed : forall (L : Type) (start : L) (step : L -> input -> outcome L)
-    (coro : bool) (fx : fixes) (s : cstate L) (o : op), cwf L s -> c_label s = RDone ->
-  snd (cy_op L start step coro fx s o) = [] /\ snd (fst (cy_op L start step coro fx s o)) = s.
+    (coro agen : bool) (fx : fixes) (s : cstate L) (o : op), cwf L s -> c_label s = RDone ->
+  snd (cy_op L start step coro agen fx s o) = [] /\ snd (fst (cy_op L start step coro agen fx s o)) = s.
 Proof. exact finished_never_resumed. Qed.
 Print Assumptions C23_finished_never_resumed.
 
 Theorem C23_del_finishes : forall (L : Type) (start : L) (step : L -> input -> outcome L)
-    (coro : bool) (fx : fixes) (s : cstate L), cwf L s ->
-  (exists e, fst (fst (cy_op L start step coro fx s Del)) = RUnraisable e) \/ c_label s = RFresh
-  \/ c_label (snd (fst (cy_op L start step coro fx s Del))) = RDone.
+    (coro agen : bool) (fx : fixes) (s : cstate L), cwf L s ->
+  (exists e, fst (fst (cy_op L start step coro agen fx s Del)) = RUnraisable e) \/ c_label s = RFresh
+  \/ c_label (snd (fst (cy_op L start step coro agen fx s Del))) = RDone.
 Proof. exact del_finishes. Qed.
 Print Assumptions C23_del_finishes.
 
 Example C23_nonvacuous :
-  avoids Z 0 w_step_yf false (c_init Z) [Next; Send (VInt 3); Close; Close; Next] = true
+  avoids Z 0 w_step_yf false false (c_init Z) [Next; Send (VInt 3); Close; Close; Next] = true
   /\ cwf Z (c_init Z).
 Proof. exact avoids_nonvacuous. Qed.
+
+
+(* ======================= the async generator layer (AsyncGen.c) =======================
+   run_cy_ag = the layer of M_AsyncGen over Coroutine.c's machine, run_py_ag = the same layer over CPython's;
+   av = variant of the layer (av_cy: AsyncGen.c as it is, av_py: CPython 3.12.1).  A history creates
+   awaitables (__anext__/asend/athrow/aclose) in slots and steps them (send/throw/close/drive), or drops
+   the object.  Observation per operation: result, ag_running, resumptions of the body, values passed
+   through from awaits, hook events. *)
+Theorem C23_agen_bisim : forall (L : Type) (start : L) (step : L -> input -> outcome L) (av : avar)
+    (hooks : bool) (h : list aop) (w1 : world (cstate L)) (w2 : world (pstate L)),
+  Rworld L w1 w2 ->
+  run_cy_ag L start step fx_all av hooks w1 h = run_py_ag L start step av hooks w2 h.
+Proof. exact agen_bisim. Qed.
+Print Assumptions C23_agen_bisim.
+
+(* the worlds at creation are related, so the theorem applies to every history from creation *)
+Example C23_agen_init_related : forall (L : Type),
+  Rworld L (world_init (cstate L) (c_init L)) (world_init (pstate L) (p_init L)).
+Proof. intro L. split; [|reflexivity]. cbn. repeat split; auto. Qed.
+
+(* aclose(): after the first step of the awaitable the generator is marked closed whatever the body does with
+   GeneratorExit (any underlying generator object gop) *)
+Theorem C23_aclose_marks_closed : forall (G L : Type) (gop : G -> op -> result * G * list (L * input))
+    (gdone gwr : G -> bool) (av : avar) (a : ag G) (arg : val),
+  av_closed_first av = true -> ag_running_async G a = false -> gdone (ag_gen G a) = false -> is_none arg = true ->
+  ag_closed G (snd (fst (fst (athrow_send G L gop gdone gwr av a KClose AInit arg)))) = true.
+Proof. exact aclose_marks_closed. Qed.
+Print Assumptions C23_aclose_marks_closed.
+
+(* a closed generator answers every new aclose()/athrow() awaitable with StopAsyncIteration; the body is not
+   resumed and nothing changes *)
+Theorem C23_closed_gen_answers_stopasync : forall (G L : Type) (gop : G -> op -> result * G * list (L * input))
+    (gdone gwr : G -> bool) (av : avar) (a : ag G) (k : akind) (arg : val), (forall v, k <> KSend v) ->
+  ag_closed G a = true -> ag_running_async G a = false -> gdone (ag_gen G a) = false ->
+  athrow_send G L gop gdone gwr av a k AInit arg = (RRaise EStopAsync, a, AClosed, []).
+Proof. exact closed_gen_answers_stopasync. Qed.
+Print Assumptions C23_closed_gen_answers_stopasync.
+
+(* a finished awaitable never touches the generator again *)
+Theorem C23_finished_awaitable_inert : forall (G L : Type) (gop : G -> op -> result * G * list (L * input))
+    (gdone gwr : G -> bool) (av : avar) (a : ag G) (k : akind) (s : astep),
+  exists r, aw_step G L gop gdone gwr av a (Awt k AClosed) s = (r, a, Awt k AClosed, [])
+            /\ (r = RNone \/ exists m, r = RRaise (ERuntime m)).
+Proof. exact finished_awaitable_inert. Qed.
+Print Assumptions C23_finished_awaitable_inert.
+
+(* the variant with ag_closed set after the "ignored GeneratorExit" test violates the property *)
+Theorem C23_agen_closed_late_refuted :
+  ares_of (run_cy_ag Z 0 ag_w_step fx_all (av_with false false false false) false wc h_seeded)
+  <> ares_of (run_py_ag Z 0 ag_w_step av_py false wp h_seeded).
+Proof. exact closed_late_refuted. Qed.
+Print Assumptions C23_agen_closed_late_refuted.
+
+(* AsyncGen.c as it is vs CPython 3.12.1: the full statement (forall h, run_cy_ag fx_none av_cy = run_py_ag av_py)
+   is FALSE; one refutation per variant flag *)
+Theorem C23_agen_nullexc_refuted :
+  ares_of (run_cy_ag Z 0 ag_w_step fx_all (av_with false false true true) false wc h_nullexc)
+  <> ares_of (run_py_ag Z 0 ag_w_step av_py false wp h_nullexc).
+Proof. exact nullexc_refuted. Qed.
+Print Assumptions C23_agen_nullexc_refuted.
+
+Theorem C23_agen_t313_refuted :
+  ares_of (run_cy_ag Z 0 ag_w_step fx_all (av_with true false true false) false wc h_t313)
+  <> ares_of (run_py_ag Z 0 ag_w_step av_py false wp h_t313).
+Proof. exact t313_refuted. Qed.
+Print Assumptions C23_agen_t313_refuted.
+
+Theorem C23_agen_pad_refuted :
+  ares_of (run_cy_ag Z 0 ag_w_step fx_all (av_with false true true false) false wc h_running)
+  <> ares_of (run_py_ag Z 0 ag_w_step av_py false wp h_running).
+Proof. exact pad_refuted. Qed.
+Print Assumptions C23_agen_pad_refuted.
+
+Theorem C23_agen_fresh_del_refuted :
+  ares_of (run_cy_ag Z 0 ag_w_step fx_none av_py false wc [ADel])
+  <> ares_of (run_py_ag Z 0 ag_w_step av_py false wp [ADel]).
+Proof. exact ag_fresh_del_refuted. Qed.
+Print Assumptions C23_agen_fresh_del_refuted.
+
+Example C23_agen_nonvacuous :
+  ares_of (run_py_ag Z 0 ag_w_step av_py false wp h_seeded)
+  = [ANewOk; AR (RRaise (EStopIter (VInt 1))); ANewOk; AR (RRaise (ERuntime M_IGNORED)); ANewOk; AR (RRaise EStopAsync)].
+Proof. exact agen_nonvacuous. Qed.
